@@ -43,19 +43,30 @@ Realizable == c.nilRecv => (c.F = {} /\ ~c.custom)
 \* reader / writer / iterator, zero descriptor) or with an error ("zeroerr").  A delegating call
 \* returns the delegate's results verbatim, whatever they are.
 SretsFor(o) == IF o.kind = "delegate" THEN {"val", "err"} ELSE {"val"}
-SretsAll(o) == IF o.kind = "delegate" THEN {"val", "err", "zero", "zeroerr"} ELSE {"val"}
+SretsAll(m, o) == IF o.kind # "delegate" THEN {"val"}
+                  ELSE {"val", "err", "zero", "zeroerr"} \cup (IF m \in IterMethods THEN {"mid"} ELSE {})
+\* (stub mode, constructor kind) variants of one case of the field-set family: a delegating case under
+\* every stub mode ("mid": an iterator with errors in the middle) and, if a constructor is set, also
+\* with one that would panic (it must not be invoked); an unset method under every constructor kind.
+Variants(m, o, custom) ==
+  CASE o.kind = "delegate" -> {<<s, IF custom THEN "tag" ELSE "none">> : s \in SretsAll(m, o)}
+                              \cup (IF custom THEN {<<"val", "panic">>} ELSE {})
+    [] o.kind = "custom" -> {<<"val", k>> : k \in CtorKinds}
+    [] OTHER -> {<<"val", IF custom THEN "tag" ELSE "none">>}
 Export ==
   Realizable =>
     LET o == Call(c.m, c.F, c.custom, c.nilRecv)
         x == Effects(c.m, o) IN
-    \A s \in SretsAll(o) :
-      PrintT(<<"MBT", ToJson([m |-> c.m, F |-> c.F, custom |-> c.custom, nilrecv |-> c.nilRecv, sret |-> s,
+    \A v \in Variants(c.m, o, c.custom) :
+      PrintT(<<"MBT", ToJson([m |-> c.m, F |-> c.F, custom |-> c.custom, nilrecv |-> c.nilRecv, sret |-> v[1], ck |-> v[2],
+                              panics |-> (o.kind = "custom" /\ CtorPanics(v[2])),
                               pred |-> o.kind, to |-> o.to, ctors |-> x.ctors,
                               values |-> x.values, error |-> x.error, yields |-> x.yields])>>)
 
 -----------------------------------------------------------------------------
 (* ArgSpec (OciFuncsMC_args.cfg): the cases again over the special argument values:        *)
-(* 18 methods x {each field alone, all, none, all but the own} x constructor x every       *)
+(* 18 methods x {each field alone, all, none, all but the own} x constructor (another      *)
+(* field alone: without constructor only) x every                                          *)
 (* argument profile of the method (156 in total), plus the nil table per profile;         *)
 ArgFamily(m) == {{f} : f \in Methods} \cup {Methods, {}, Methods \ {m}}
 \* ... and over the contexts: the same field sets under a cancelled, an expired and the nil
@@ -63,7 +74,9 @@ ArgFamily(m) == {{f} : f \in Methods} \cup {Methods, {}, Methods \ {m}}
 ArgInit ==
   c \in UNION {
          {[m |-> m, F |-> F, custom |-> cu, nilRecv |-> FALSE, av |-> av, cx |-> "live"] :
-              F \in ArgFamily(m), cu \in BOOLEAN, av \in ArgProfiles(m)}
+              F \in {{}, {m}, Methods, Methods \ {m}}, cu \in BOOLEAN, av \in ArgProfiles(m)}
+         \cup {[m |-> m, F |-> {f}, custom |-> FALSE, nilRecv |-> FALSE, av |-> av, cx |-> "live"] :
+              f \in Methods \ {m}, av \in ArgProfiles(m)}   \* another field alone: without constructor only
          \cup {[m |-> m, F |-> {}, custom |-> FALSE, nilRecv |-> TRUE, av |-> av, cx |-> "live"] : av \in ArgProfiles(m)}
          \cup {[m |-> m, F |-> F, custom |-> cu, nilRecv |-> FALSE, av |-> <<>>, cx |-> x] :
               F \in ArgFamily(m), cu \in BOOLEAN, x \in CtxVals \ {"live"}}
@@ -76,6 +89,7 @@ ArgExport ==
       x == Effects(c.m, o) IN
   \A s \in SretsFor(o) :
     PrintT(<<"MBT", ToJson([m |-> c.m, F |-> c.F, custom |-> c.custom, nilrecv |-> c.nilRecv, sret |-> s, av |-> c.av, cx |-> c.cx,
+                            ck |-> (IF c.custom THEN "tag" ELSE "none"), panics |-> FALSE,
                             pred |-> o.kind, to |-> o.to, ctors |-> x.ctors,
                             values |-> x.values, error |-> x.error, yields |-> x.yields])>>)
 -----------------------------------------------------------------------------
